@@ -19,6 +19,8 @@ import CookModel.Lemmas.InsertWF
 import CookModel.Lemmas.LoosePads
 import CookModel.Lemmas.LooseValue
 import CookModel.Lemmas.UnitKeysBlank
+import CookModel.Lemmas.NoFence
+import CookModel.Lemmas.InlineScanPrefix
 /-
   C17  Line endings, comments and blank space do not change the recipe.
 
@@ -2591,5 +2593,170 @@ example : SameRecipe (α := Rat) (fun c => c = ' ')
     (parseRecipe C17_toyEnv (render ([] ++ docSpec (C17_exNumDoc C17_exNumPad)))) :=
   C17_component_pads_same_recipe _ C17_toyEnv [] [] _ _ (C17_exNumDoc_wf _ (by decide)) (C17_exNumDoc_wf _ (by decide)) rfl
 -- ===== end w7c17text =====
+
+-- ===== w8c17fence =====
+/-! ## Wave 8 (notes/audit-C17.md, "wave 8"): obstacle (ii), "no line of the transformed text becomes a fence".
+
+  `parse_frontmatter` answers `None` for one of three reasons that can be read off the LINES of the source (no
+  fence; a non-blank line before the first fence; no second fence), and all three survive when one line is
+  replaced by lines none of which is a fence (one of them non-blank if the replaced line was), or by a line
+  that is a fence only if the replaced one was.  `fncFillerOK cs f` is the decidable condition on the filler
+  text alone under which that is what an insertion of `f` does. -/
+
+/-- **`parse_frontmatter s = None` is a decision on the lines of `s`** (`split_inclusive('\n')`): the first
+    line that is a fence has no fence behind it, or a line in front of it is not blank, or there is none. -/
+theorem C17_no_front_matter_by_lines (cs : CharSpec) (s : List Char) :
+    parseFrontmatter cs s = none ↔ fncNone cs (splitInclusive s) = true := fnc_none_iff cs s
+
+/-- **Filler text put ANYWHERE into a source without front matter: still no front matter**, for a filler
+    `f` with `fncFillerOK cs f`: `f` is white space without line feed (then a line is a fence only if it was
+    one: a fence holds no white space, and white space at the end of a line is trimmed before and after);
+    or the first and the last line of `f` show a character that is neither `-` nor white space (`[` of `[-`,
+    `]` of `-]`, the text of a comment), `f` does not end in a line feed, and no line of `f` is a fence under
+    `trim_end` (the inner lines of a block comment become lines of the source).  `u`, `v` arbitrary. -/
+theorem C17_no_front_matter_after_filler (cs : CharSpec) (u f v : List Char) (hok : fncFillerOK cs f = true)
+    (h : parseFrontmatter cs (u ++ v) = none) : parseFrontmatter cs (u ++ f ++ v) = none :=
+  fnc_insert_text cs u f v hok h
+
+/-! the condition holds for blanks, for a one-line comment with a blank, for a block comment over several
+    lines (blank and `--` lines inside are harmless); it fails for a comment with a `---` line and for the
+    bare line comment `--`.  Both failures are NEEDED: behind an unclosed opening fence the comment line `---`
+    closes the front matter, and `-` followed by `--` is the line `---` (that second one is not well spelled
+    as tokens — the lexer reads `---` as one comment — so it is excluded twice in the theorems below). -/
+example : fncFillerOK toyCharSpec "  ".toList = true ∧ fncFillerOK toyCharSpec "[- c -] ".toList = true ∧
+    fncFillerOK toyCharSpec "-- c".toList = true ∧ fncFillerOK toyCharSpec "[- a\n\n -- \nb -]".toList = true ∧
+    fncFillerOK toyCharSpec "[- a\n---\nb -]".toList = false ∧ fncFillerOK toyCharSpec "--".toList = false := by decide
+example : (parseFrontmatter toyCharSpec "---\nMix  well\n".toList).isNone = true ∧
+    (parseFrontmatter toyCharSpec ("---\nMix ".toList ++ "[- a\n---\nb -]".toList ++ " well\n".toList)).isNone = false := by
+  decide
+example : (parseFrontmatter toyCharSpec "---\n-\n".toList).isNone = true ∧
+    (parseFrontmatter toyCharSpec ("---\n-".toList ++ "--".toList ++ "\n".toList)).isNone = false := by decide
+example : parseFrontmatter toyCharSpec ("---\nMix ".toList ++ "[- a\n\n -- \nb -]".toList ++ " well\n".toList) = none :=
+  C17_no_front_matter_after_filler _ _ _ _ (by decide) (by decide)
+
+/-- **`DocWF` of the transformed document from `DocWF` of the original, INLINE_QUANTITIES off, WITHOUT the
+    no-fence hypothesis on the transformed text** (obstacle (ii) closed): filler `F` inside a text run of one
+    step of `D1 ++ step :: D2`.  Conditions on the insertion that remain, both on the filler and its
+    neighbours only: the printed filler satisfies `fncFillerOK` (above; decidable, needed), and the token list
+    with the filler is spelled as the lexer spells it (`hw`; `C17_well_spelled_insertion` reduces it to the
+    filler and its two neighbours — a condition of the same kind: `-` followed by `--` is not an insertion of
+    a comment).  Under INLINE_QUANTITIES the scan of the changed run is still open (obstacle (i)):
+    `C17_insertion_in_text_wellformed_partial` with `hext`, and the `_no_fence_partial` form below. -/
+theorem C17_insertion_in_text_wellformed {α : Type} [Arith α] (env : Env)
+    (hoff : env.ext.has Gen.EXT_INLINE_QUANTITIES = false) (pre : List Tok)
+    (D1 D2 : List (DocItem × List Tok)) (sep : List Tok) (S1 S2 : List SegX) (l1 F l2 : List Tok) (hF : IsFiller F)
+    (hnf : fncFillerOK env.cs (render F) = true)
+    (h : DocWF α env pre (D1 ++ (DocItem.step (S1 ++ SegX.text (l1 ++ l2) :: S2), sep) :: D2))
+    (hw : WellSpelled env.cs (pre ++ docSpec (D1 ++ (DocItem.step (S1 ++ SegX.text (l1 ++ F ++ l2) :: S2), sep) :: D2))) :
+    DocWF α env pre (D1 ++ (DocItem.step (S1 ++ SegX.text (l1 ++ F ++ l2) :: S2), sep) :: D2) :=
+  w6d_docWF_inText env pre D1 D2 sep S1 S2 l1 F l2 hF h (w6d_text_extOK_off env hoff _) hw
+    (fnc_doc_inText env.cs pre D1 D2 sep S1 S2 l1 F l2 hnf h.noFront)
+
+/-- every extension set: the no-fence hypothesis replaced by the condition on the filler; partial because
+    under INLINE_QUANTITIES "the scan finds nothing in the changed run" (`hext`) is still asked of the
+    transformed run (obstacle (i), the word-by-word induction over `inlineStep`, not done) -/
+theorem C17_insertion_in_text_wellformed_no_fence_partial {α : Type} [Arith α] (env : Env) (pre : List Tok)
+    (D1 D2 : List (DocItem × List Tok)) (sep : List Tok) (S1 S2 : List SegX) (l1 F l2 : List Tok) (hF : IsFiller F)
+    (hnf : fncFillerOK env.cs (render F) = true)
+    (h : DocWF α env pre (D1 ++ (DocItem.step (S1 ++ SegX.text (l1 ++ l2) :: S2), sep) :: D2))
+    (hext : (SegX.text (l1 ++ F ++ l2)).extOK α env)
+    (hw : WellSpelled env.cs (pre ++ docSpec (D1 ++ (DocItem.step (S1 ++ SegX.text (l1 ++ F ++ l2) :: S2), sep) :: D2))) :
+    DocWF α env pre (D1 ++ (DocItem.step (S1 ++ SegX.text (l1 ++ F ++ l2) :: S2), sep) :: D2) :=
+  w6d_docWF_inText env pre D1 D2 sep S1 S2 l1 F l2 hF h hext hw
+    (fnc_doc_inText env.cs pre D1 D2 sep S1 S2 l1 F l2 hnf h.noFront)
+
+/-- the same for filler as a text run of its own (behind a component or at the start of the step, in front of
+    a component or at the end of the step), INLINE_QUANTITIES off -/
+theorem C17_insertion_run_wellformed {α : Type} [Arith α] (env : Env)
+    (hoff : env.ext.has Gen.EXT_INLINE_QUANTITIES = false) (pre : List Tok)
+    (D1 D2 : List (DocItem × List Tok)) (sep : List Tok) (S1 S2 : List SegX) (F : List Tok) (hF : IsFiller F)
+    (hnf : fncFillerOK env.cs (render F) = true)
+    (hvis : F.flatMap vis ≠ []) (hS2 : ∀ s, S2.head? = some s → s.isText = false)
+    (hS1 : ∀ s, S1.getLast? = some s → s.isText = false)
+    (h : DocWF α env pre (D1 ++ (DocItem.step (S1 ++ S2), sep) :: D2))
+    (hw : WellSpelled env.cs (pre ++ docSpec (D1 ++ (DocItem.step (S1 ++ SegX.text F :: S2), sep) :: D2))) :
+    DocWF α env pre (D1 ++ (DocItem.step (S1 ++ SegX.text F :: S2), sep) :: D2) :=
+  w6d_docWF_newText env pre D1 D2 sep S1 S2 F hF hvis hS2 hS1 h (w6d_text_extOK_off env hoff _) hw
+    (fnc_doc_newText env.cs pre D1 D2 sep S1 S2 F hnf h.noFront)
+
+/-- **Trailing comment / trailing blanks / block comment (also over several lines) between words of step
+    text: the same recipe, from the well-formedness of the ORIGINAL alone, INLINE_QUANTITIES off** — the
+    no-fence hypothesis of `C17_insertion_in_text_same_recipe_inline_off_partial` replaced by the condition on the
+    filler.  What is asked of the insertion: `F` is white space / comments showing only white space, next to
+    white space or at the end of the run; its text satisfies `fncFillerOK`; the token list is well spelled. -/
+theorem C17_insertion_in_text_same_recipe_inline_off {α : Type} [Arith α] (env : Env) (ws : Char → Bool)
+    (hoff : env.ext.has Gen.EXT_INLINE_QUANTITIES = false) (pre : List Tok)
+    (D1 D2 : List (DocItem × List Tok)) (sep : List Tok) (S1 S2 : List SegX) (l1 F l2 : List Tok) (hF : IsFiller F)
+    (hnf : fncFillerOK env.cs (render F) = true)
+    (hvis : ∀ c ∈ F.flatMap vis, ws c = true) (hadj : BlankAdj ws (l1.flatMap vis) (l2.flatMap vis))
+    (hS2 : ∀ s, S2.head? = some s → s.isText = false)
+    (h : DocWF α env pre (D1 ++ (DocItem.step (S1 ++ SegX.text (l1 ++ l2) :: S2), sep) :: D2))
+    (hw : WellSpelled env.cs (pre ++ docSpec (D1 ++ (DocItem.step (S1 ++ SegX.text (l1 ++ F ++ l2) :: S2), sep) :: D2))) :
+    SameRecipe ws
+      (parseRecipe (α := α) env
+        (render (pre ++ docSpec (D1 ++ (DocItem.step (S1 ++ SegX.text (l1 ++ F ++ l2) :: S2), sep) :: D2))))
+      (parseRecipe (α := α) env
+        (render (pre ++ docSpec (D1 ++ (DocItem.step (S1 ++ SegX.text (l1 ++ l2) :: S2), sep) :: D2)))) :=
+  C17_insertion_in_text_same_recipe_inline_off_partial env ws hoff pre D1 D2 sep S1 S2 l1 F l2 hF hvis hadj hS2 h hw
+    (fnc_doc_inText env.cs pre D1 D2 sep S1 S2 l1 F l2 hnf h.noFront)
+
+/-! non-vacuity: `Mix [- c -] well⏎` against `Mix well⏎` under the toy environment, now without looking at the
+    front matter of the transformed text -/
+example : SameRecipe (α := Rat) (fun c => c = ' ')
+    (parseRecipe C17_toyEnv "Mix [- c -] well\n".toList) (parseRecipe C17_toyEnv "Mix well\n".toList) := by
+  have h := C17_insertion_in_text_same_recipe_inline_off (α := Rat) C17_toyEnv (fun c => c = ' ') (by decide) []
+    [] [] [tk .newline ['\n']] [] [] [tk .word "Mix".toList, tk .ws [' ']]
+    [tk .blockComment "[- c -]".toList, tk .ws [' ']] [tk .word "well".toList]
+    (by intro t ht; simp only [List.mem_cons, List.not_mem_nil, or_false] at ht; rcases ht with rfl | rfl <;> rfl)
+    (by decide)
+    (by decide) (Or.inr (Or.inr ⟨"Mix".toList, ' ', by decide, by decide⟩)) (by intro s hs; cases hs)
+    (C17_exDocWF _ (by decide) (by
+      intro d hd
+      simp only [List.nil_append, List.mem_cons, List.not_mem_nil, or_false] at hd
+      subst hd; exact ⟨_, rfl⟩))
+    (by decide)
+  have e1 : render ([] ++ docSpec ([] ++ (DocItem.step ([] ++ SegX.text ([tk .word "Mix".toList, tk .ws [' ']] ++
+      [tk .blockComment "[- c -]".toList, tk .ws [' ']] ++ [tk .word "well".toList]) :: []), [tk .newline ['\n']]) :: [])) =
+      "Mix [- c -] well\n".toList := by decide
+  have e2 : render ([] ++ docSpec ([] ++ (DocItem.step ([] ++ SegX.text ([tk .word "Mix".toList, tk .ws [' ']] ++
+      [tk .word "well".toList]) :: []), [tk .newline ['\n']]) :: [])) = "Mix well\n".toList := by decide
+  rw [e1, e2] at h
+  exact h
+
+/-! … and a block comment over three lines, the middle one blank: `Mix [- a⏎⏎b -] well⏎` -/
+example : SameRecipe (α := Rat) (fun c => c = ' ')
+    (parseRecipe C17_toyEnv "Mix [- a\n\nb -] well\n".toList) (parseRecipe C17_toyEnv "Mix well\n".toList) := by
+  have h := C17_insertion_in_text_same_recipe_inline_off (α := Rat) C17_toyEnv (fun c => c = ' ') (by decide) []
+    [] [] [tk .newline ['\n']] [] [] [tk .word "Mix".toList, tk .ws [' ']]
+    [tk .blockComment "[- a\n\nb -]".toList, tk .ws [' ']] [tk .word "well".toList]
+    (by intro t ht; simp only [List.mem_cons, List.not_mem_nil, or_false] at ht; rcases ht with rfl | rfl <;> rfl)
+    (by decide)
+    (by decide) (Or.inr (Or.inr ⟨"Mix".toList, ' ', by decide, by decide⟩)) (by intro s hs; cases hs)
+    (C17_exDocWF _ (by decide) (by
+      intro d hd
+      simp only [List.nil_append, List.mem_cons, List.not_mem_nil, or_false] at hd
+      subst hd; exact ⟨_, rfl⟩))
+    (by decide)
+  have e1 : render ([] ++ docSpec ([] ++ (DocItem.step ([] ++ SegX.text ([tk .word "Mix".toList, tk .ws [' ']] ++
+      [tk .blockComment "[- a\n\nb -]".toList, tk .ws [' ']] ++ [tk .word "well".toList]) :: []), [tk .newline ['\n']]) :: [])) =
+      "Mix [- a\n\nb -] well\n".toList := by decide
+  have e2 : render ([] ++ docSpec ([] ++ (DocItem.step ([] ++ SegX.text ([tk .word "Mix".toList, tk .ws [' ']] ++
+      [tk .word "well".toList]) :: []), [tk .newline ['\n']]) :: [])) = "Mix well\n".toList := by decide
+  rw [e1, e2] at h
+  exact h
+
+/-- **Obstacle (i), first step only: whether `find_inline_quantity` finds a quantity does not depend on the
+    text in front of the scanned position** (that text only enters the `before` part and the sign of a hit), for
+    every fuel.  The invariance of the scan under blanks inserted next to blanks (the word-by-word induction
+    over `inlineStep` with a relation between the two remaining texts) is NOT proved; with this lemma the
+    relation needs to speak about the remaining text only. -/
+theorem C17_inline_scan_none_prefix_free {α : Type} [Arith α] (env : Env) (fuel : Nat) (pre pre' rest : Str) :
+    (findInlineQuantity (α := α) env fuel pre rest).isNone = (findInlineQuantity (α := α) env fuel pre' rest).isNone :=
+  w8i_none_prefix env fuel pre pre' rest
+
+example : (findInlineQuantity (α := Rat) C17_toyEnv 9 "dda ".toList.reverse "2 cups now".toList).isNone =
+    (findInlineQuantity (α := Rat) C17_toyEnv 9 [] "2 cups now".toList).isNone :=
+  C17_inline_scan_none_prefix_free _ _ _ _ _
+-- ===== end w8c17fence =====
 
 end Cook
